@@ -428,6 +428,29 @@ def run(chk):
         if os.environ.get("VF_DEBUG"):
             for src, r, cls, tag in suspects:
                 print("SUSPECT", r.get("outcome"), (r.get("panic") or {}).get("loc"), core.short(src, 150).replace("\n", " "))
+        # a program that fails at every stack depth in a range, followed by filter actions that declare locals (the filters run
+        # on the stack the failure left behind)
+        depth_progs = []
+        depths = sorted(set(list(range(1, 40)) + list(range(56, 72)) + list(range(120, 136)) + list(range(248, 264)) + list(range(504, 520)) + list(range(1016, 1032))
+                            + list(range(2040, 2056)) + [3000, 4000, 4090, 4093, 4094, 4095]))
+        if quick:
+            depths = [d for k_, d in enumerate(depths) if k_ % 2 == 0 or 120 <= d <= 136 or 248 <= d <= 264]
+        for d in depths:
+            depth_progs.append("fn f(n) { if n == 0 { 1 / 0 } else { 1 + f(n - 1) } } f(%d); @ true { let l1 = NP; let l2 = PL; let l3 = l1 + l2; puts(l3 - l3); } @ end { let e1 = 1; let e2 = [e1]; puts(len(e2)); }" % d)
+        pcap_d = os.path.join(work, "depth.pcap")
+        with open(pcap_d, "wb") as f:
+            f.write(one_packet_pcap(2))
+        for k, prog in enumerate(depth_progs):
+            with open(path, "w", encoding="utf-8") as f:
+                f.write(prog)
+            with open(pcap_d, "rb") as fi:
+                rr = core.run_binary(["-s", path], stdin_file=fi, release=(k % 2 == 1), timeout=30, step_budget=400000)
+            if rr["timeout"]:
+                chk.inconc("timeout (depth program)")
+                continue
+            chk.observed(("fail-depth-then-filters", min(depths[k], 300) // 10, k % 2))
+            if core.crashed(rr):
+                report_crash(chk, prog, rr, "filter-after-failure")
         # filter programs end to end
         pcap = os.path.join(work, "in.pcap")
         with open(pcap, "wb") as f:
